@@ -164,21 +164,26 @@ def run(ctx: Ctx) -> None:
     # --- enumeration ---------------------------------------------------------------------------------------
     lim = ctx.pick(3, 4)
     gens = []
-    for m in range(0, lim + 1):
-        for n in range(0, lim + 1):
-            rck = [str(10 + i) for i in range(m)]
-            fck = [str(901 + i) for i in range(n)]
+    # key sets: consecutive; of different digit counts (numeric and lexicographic order differ); not in ascending order
+    rc_sets = [["10", "11", "12", "13"], ["9", "10", "100", "2000"], ["499", "2", "31", "7"], ["2499", "1", "20", "300"]]
+    fc_sets = [["901", "902", "903", "904"], ["999", "950", "901", "932"]]
+    for m, n, ri, fi in [(m, n, ri, fi) for m in range(0, lim + 1) for n in range(0, lim + 1) for ri in range(len(rc_sets)) for fi in range(len(fc_sets))]:
+        if (m == 0 and ri > 0) or (n == 0 and fi > 0):
+            continue
+        for _ in (0,):
+            rck = rc_sets[ri][:m]
+            fck = fc_sets[fi][:n]
             x = CategorizedKeyExtract(hint_keys=["501"], format_constraint_keys=list(fck), requirement_constraint_keys=list(rck), package_keys=[], time_condition_keys=[])
             res = x.generate_possible_content_evaluation_results()
             got = sorted((tuple(sorted((k, v.format_constraint_fulfilled) for k, v in r.format_constraints.items())),
                           tuple(sorted((k, str(v.value)) for k, v in r.requirement_constraints.items()))) for r in res)
-            want = sorted((tuple(zip(fck, fv)), tuple(zip(rck, rv))) for fv in itertools.product([True, False], repeat=n)
+            want = sorted((tuple(sorted(zip(fck, fv))), tuple(sorted(zip(rck, rv)))) for fv in itertools.product([True, False], repeat=n)
                           for rv in itertools.product(["FULFILLED", "UNFULFILLED", "UNKNOWN"], repeat=m))
-            ctx.case(("gen", m, n))
+            ctx.case(("gen", m, n, ri, fi))
             ctx.count("generated", f"m={m},n={n}", len(res))
             gens.append((rck, fck, got))
             if got != want:
-                key = K2_KEY if (m == 0 and n == 0 and got == []) else f"product:m={m},n={n}"
+                key = K2_KEY if (m == 0 and n == 0 and got == []) else f"product:m={m},n={n}:{ri}{fi}"
                 ctx.violation("generated content evaluation results are not exactly the Cartesian product (every combination once)" if key != K2_KEY else
                               "no requirement and no format key: [] is returned although the product over zero keys has exactly one element",
                               {"requirement_keys": rck, "format_keys": fck, "generated": len(got), "expected": len(want),
